@@ -89,7 +89,7 @@ def opsExtra : Handler := fun st toks =>
     let (_, sl) ← t? d
     let spec := if sl.s.length < 16 then "RoaringTreemap<[" ++ ", ".intercalate (sl.s.map toString) ++ "]>"
       else s!"RoaringTreemap<{sl.s.length} values between {showOpt sl.s.head?} and {showOpt sl.s.getLast?}>"
-    match Treemap.debugFmt sl.m with
+    match Treemap.debugFmtM sl.m with
     | some s => pure (st, specMark (showDebug s) (showDebug spec))
     | none => pure (st, specMark "panic" (showDebug spec))
   | ["tclone_from", d, s] => do
